@@ -150,16 +150,16 @@ func getSpatialIdAttrs(spatialId string) (int, int, int, int, error) {
 		// 不正形式(要素数)
 		return 0, 0, 0, 0, errors.NewSpatialIdError(errors.InputValueErrorCode, fmt.Sprintf("spatialId: %v", spatialId))
 	}
-	var errNumberConversion error
-	zoom, errNumberConversion := strconv.Atoi(spatialIdAttributes[0])
-	f, errNumberConversion := strconv.Atoi(spatialIdAttributes[1])
-	x, errNumberConversion := strconv.Atoi(spatialIdAttributes[2])
-	y, errNumberConversion := strconv.Atoi(spatialIdAttributes[3])
-	// 不正形式(数値)
-	if errNumberConversion != nil {
-		return 0, 0, 0, 0, errors.NewSpatialIdError(errors.InputValueErrorCode, fmt.Sprintf("spatialId: %v", spatialId))
+	// 各成分を数値に変換する。いずれかの成分が数値でない場合は不正形式(数値)とする
+	values := [4]int{}
+	for i, attribute := range spatialIdAttributes {
+		value, errNumberConversion := strconv.Atoi(attribute)
+		if errNumberConversion != nil {
+			return 0, 0, 0, 0, errors.NewSpatialIdError(errors.InputValueErrorCode, fmt.Sprintf("spatialId: %v", spatialId))
+		}
+		values[i] = value
 	}
-	return zoom, f, x, y, nil
+	return values[0], values[1], values[2], values[3], nil
 }
 
 // CheckExtendedSpatialIdsOverlap 2つの拡張空間IDの重複の判定関数
